@@ -565,10 +565,27 @@ pub fn run(args: &Args) {
             h = h.wrapping_mul(0x100_0000_01b3) ^ u64::from(c);
         }
         let mut rng = Rng::new(h);
+        // ids: random 32 bytes; in half of the behaviours the later ids differ from the first in a
+        // single (seeded) byte, and sometimes the first id starts with zero bytes (base58 '1's),
+        // so a store that derives the file name from part of the id is noticed
         let mut ids: Vec<BaseId> = Vec::new();
+        let near = rng.chance(1, 2);
+        let mut first = [0u8; 32];
+        rng.fill(&mut first);
+        if rng.chance(1, 4) {
+            let z = rng.range(1, 8) as usize;
+            first[..z].fill(0);
+        }
         while ids.len() < nids {
-            let mut bytes = [0u8; 32];
-            rng.fill(&mut bytes);
+            let mut bytes = first;
+            if !ids.is_empty() {
+                if near {
+                    let pos = rng.below(32) as usize;
+                    bytes[pos] ^= 1 << rng.below(8);
+                } else {
+                    rng.fill(&mut bytes);
+                }
+            }
             let id = BaseId::from(bytes);
             if !ids.contains(&id) {
                 ids.push(id);
